@@ -116,7 +116,10 @@ func main() {
 		core.Fatalf("no TLC schedule could be followed by the real code (%d tried): the gates no longer bind Metrics.tla to RecordTokenization", deviated)
 	}
 
-	// 3. race-detector stress with sequential oracle
+	// 3. pooled-object sharing: forced preemption at every pool event
+	sharing(run, tier)
+
+	// 4. race-detector stress with sequential oracle
 	stress(run, tier)
 	run.Exhaustive = false
 	run.Finish()
